@@ -3,7 +3,7 @@
    (instance QS) and what the property theorems quantify over (instance RS). *)
 From Coq Require Import ZArith List Bool.
 Import ListNotations.
-From Manif Require Import Scalar Mat Consts Group SO2 SE2 SO3 SE3 SE23 SGal3 Rn Generic Api.
+From Manif Require Import Scalar Mat Consts Group SO2 SE2 SO3 SE3 SE23 SGal3 Rn Generic Api Algorithms Hist.
 
 Inductive gid : Type :=
 | GSO2 | GSE2 | GSO3 | GSE3 | GSE23 | GSGal3 | GRn (n : nat).
@@ -13,7 +13,8 @@ Inductive opcode : Type :=
 | OBetween | OTransform | ORotation | OTranslation | OIsApprox | OIdentity | ONormalize | OAssertOk
 | OExp | OHat | ORjac | OLjac | ORjacinv | OLjacinv | OSmallAdj | OGenerator | OVee | OBracket
 | OInner | OInnerWeights | OWeightedNorm | OSqWeightedNorm | OTPlus | OTMinus | OTIsApprox | ORandom
-| OAliasGT | OAliasGG | OAliasG | OAliasT | OAliasGV | OAliasId.
+| OAliasGT | OAliasGG | OAliasG | OAliasT | OAliasGV | OAliasId
+| OHistory | OInterp | OPhi | OAverage | ODecasteljau | ODcPlan | OCast.
 
 Section Run.
 Variable F : Sc.
@@ -30,6 +31,12 @@ Fixpoint group_of (g : gid) : GroupOps F :=
   | GSE23 => SE23 F eps
   | GSGal3 => SGal3 F eps
   | GRn n => Rn F n
+  end.
+
+Definition cast_of (g : gid) : vec -> vec :=
+  match g with
+  | GSO2 => so2_cast F | GSE2 => se2_cast F | GSO3 => so3_cast F | GSE3 => se3_cast F
+  | GSE23 => se23_cast F | GSGal3 => sg_cast F | GRn _ => fun c => c
   end.
 
 Definition mflat (m : mat) : vec := concat m.
@@ -99,6 +106,38 @@ Definition run_op (g : gid) (op : opcode) (mask : list bool) (iarg : Z) (args : 
                       (if m0 then Some (g_act_Jm G a0 a1) else None),
                       (if m1 then Some (g_act_Jv G a0 a1) else None)))
   | OAliasId => Ok [g_identity G; t_zero G; t_zero G; t_zero G; t_zero G]
+  (* args: X, Y, us, t_0, t_1, ...; iarg: the encoded history (Hist.v) *)
+  | OHistory => let '(X, Y) := hrun G (cast_of g) 400 (skipn 3 args) a2 iarg 0 (a0, a1) in Ok [X; Y]
+  (* args: A, B, [t], ta, tb; iarg: 0 SLERP, 1 CUBIC, 2 CNSMOOTH, 10+m: interpolate_smooth with m *)
+  | OInterp => rmap (fun v => [v])
+                 (if Z.leb 10 iarg then interpolate_smooth G a0 a1 (vnth a2 0) (iarg - 10) (arg args 3) (arg args 4)
+                  else interpolate G a0 a1 (vnth a2 0) iarg (arg args 3) (arg args 4))
+  | OPhi => rmap (fun x => [[x]]) (smoothing_phi (vnth a0 0) iarg)
+  (* args: [e], points...; iarg: 100*kind + max_iterations; kind 0 biinvariant, 1 average, 2 frechet_left, 3 frechet_right *)
+  | OAverage => let pts := skipn 1 args in let e := vnth a0 0 in let it := Z.to_nat (Z.modulo iarg 100) in
+                rmap (fun v => [v])
+                 (match Z.div iarg 100 with
+                  | 0%Z => average_biinvariant G pts e it
+                  | 1%Z => average_weighted G eps pts it
+                  | 2%Z => average_frechet_left G pts e it
+                  | _ => average_frechet_right G pts e it
+                  end)
+  (* args: ts (the parameters t_01 of one window), points...; iarg = (degree * 1000 + k) * 2 + closed *)
+  | ODecasteljau => let traj := skipn 1 args in
+                    let closed := Z.odd iarg in let d := Z.div (Z.div iarg 2) 1000 in let k := Z.modulo (Z.div iarg 2) 1000 in
+                    match dc_plan (Z.of_nat (length traj)) d k closed with
+                    | DcOk ws _ => dc_curve G traj d ws a0
+                    | DcRuntimeError => RuntimeError
+                    | DcBadAlloc => OutOfBounds (-1)
+                    end
+  (* the plan only: args: [N]; output: points per window, number of windows, then the window indices *)
+  | ODcPlan => let closed := Z.odd iarg in let d := Z.div (Z.div iarg 2) 1000 in let k := Z.modulo (Z.div iarg 2) 1000 in
+               match dc_plan (Z.of_nat (length args)) d k closed with
+               | DcOk ws sk => Ok ([kz sk; kz (Z.of_nat (length ws))] :: map (map kz) ws)
+               | DcRuntimeError => RuntimeError
+               | DcBadAlloc => OutOfBounds (-1)
+               end
+  | OCast => Ok [cast_of g a0]
   end.
 End Run.
 Arguments run_op {F}. Arguments group_of {F}.
